@@ -18,9 +18,9 @@ import (
 
 func engines() map[string]simkit.Engine {
 	return map[string]simkit.Engine{
-		"poolsim": poolsim.Engine{},
-		"mesim":   mesim.Engine{},
-		"gmesim":  gmesim.Engine{},
+		"poolsim":   poolsim.Engine{},
+		"mesim":     mesim.Engine{},
+		"gmesim":    gmesim.Engine{},
 		"streamsim": streamsim.Engine{},
 	}
 }
